@@ -2188,6 +2188,17 @@ func (c *RemoteClient) handleMessage(ctx context.Context, m *Message) error {
 		ctx = logger.ContextWithLogFields(ctx, logger.String("remote_message", messageName))
 	}
 
+	// Until the service has proven who it is with a valid accept register message nothing else it
+	// sends is trusted, so nothing else reaches the handlers or the pending requests.
+	if !c.accepted.Load().(bool) {
+		switch m.Payload.(type) {
+		case *AcceptRegister, *Reject, *Ping, *Pong:
+		default:
+			logger.Warn(ctx, "Ignoring message received before the connection was accepted")
+			return nil
+		}
+	}
+
 	// Handle message
 	switch msg := m.Payload.(type) {
 	case *AcceptRegister:
